@@ -12,7 +12,7 @@ from gev import core, evo, workload
 
 PROPERTY = "C13"
 LEVEL = "exploration"
-TECHNIQUE = "runtime monitor: the fitness function appends one O_APPEND line per invocation (pid, monotonic ns, program hash, value) to a history file shared with the pool workers; an offline checker relates the history to Individual.get_fitness, to the evaluator's counter and to a sequential reference evaluation of a deep copy; worker completion orders are varied by hash-dependent delays and counted"
+TECHNIQUE = "runtime monitor: the fitness function appends one O_APPEND line per invocation (pid, monotonic ns, program hash, value) to a history file shared with the pool workers; an offline checker relates the history to Individual.get_fitness, to the evaluator's counter and to a sequential reference evaluation of a deep copy; worker completion orders are varied by hash-dependent delays and counted; problems are also created and freed in succession over one population (address reuse observed and counted), never-mapped individuals go through the parallel evaluator"
 RULE = (
     "sequential cases = (population mixing evaluated / new / duplicated individuals or a single one, single- or multi-objective problem in either direction, "
     "optional second problem sharing the individuals, re-presentation); run cases = GP / HC runs with elitism that re-present survivors; parallel cases = the same "
